@@ -291,11 +291,14 @@ pub struct Matrix {
     pub by_op: HashMap<&'static str, u64>,
     /// drive every preparation of the subject kind in every case (not only in operand-less cases)
     pub all_preps: bool,
+    /// operand-less cases run under every preparation (drivers) or a rotating sample of three
+    /// (replay of the bounded models' transitions: hundreds of thousands of them in the thorough tier)
+    pub unary_all_preps: bool,
 }
 
 impl Matrix {
     pub fn new(dbg: bool, ny: usize) -> Matrix {
-        Matrix { dbg, rot: 0, ny, execs: 0, prep_fallbacks: 0, events: 0, by_kind: HashMap::new(), by_op: HashMap::new(), all_preps: false }
+        Matrix { dbg, rot: 0, ny, execs: 0, prep_fallbacks: 0, events: 0, by_kind: HashMap::new(), by_op: HashMap::new(), all_preps: false, unary_all_preps: true }
     }
 
     fn prep_cands(kind: Kind) -> &'static [Prep] {
@@ -335,8 +338,18 @@ impl Matrix {
             let unary = matches!(case.y, YSpec::None | YSpec::Target(_));
             let prepxs: Vec<Prep> = if ctor {
                 vec![Prep::Fresh]
-            } else if unary || self.all_preps {
+            } else if (unary && self.unary_all_preps) || self.all_preps {
                 Self::prep_cands(kx).to_vec()
+            } else if unary {
+                let c = Self::prep_cands(kx);
+                let mut v = vec![Prep::Fresh];
+                for j in 0..2 {
+                    let p = c[(self.rot + xi * 3 + j * 4) % c.len()];
+                    if !v.contains(&p) {
+                        v.push(p);
+                    }
+                }
+                v
             } else {
                 vec![self.prep_for(kx, xi)]
             };
@@ -365,11 +378,12 @@ impl Matrix {
                 }
                 _ => vec![(None, Prep::Fresh)],
             };
+            let prepxs_many = prepxs.len() > 1;
             for prepx in prepxs {
             let (x0, okx) = make(kx, &case.x, prepx);
             if !okx {
                 self.prep_fallbacks += 1;
-                if prepx != Prep::Fresh && (unary || self.all_preps) {
+                if prepx != Prep::Fresh && prepxs_many {
                     continue; // the fresh construction is one of the candidates already
                 }
             }
